@@ -135,4 +135,142 @@ PROPS = {
                  'distinct_nontrivial = distinct (operation, result, order) signatures.'),
         'assumptions': [],
     },
+    'C01': {
+        'oracles': ['C01'], 'bv_decide': True,
+        'geoms': {'quick': ['default', 'th1'], 'thorough': ALLG},
+        'runs': {'quick': [conc(12, 60, 30, 0), seq('mixed', 20, 150)],
+                 'thorough': [conc(150, 400, 200, 0, bound=3), seq('mixed', 300, 300), seq('lower', 300, 300)]},
+        'rule': T_RULE + ('Oracle: every block returned by any thread is aligned, in range, equal to the target if one was given, and '
+                          'disjoint from every block held by any thread at that moment; at the quiescent end the metadata equals the '
+                          'blocks handed out. Sequential part: ' + S_RULE),
+        'partial': ('all-interleavings statement not a theorem: sequential freshness/disjointness proved (seq_block_fresh via the '
+                    'lower refinement), concurrent part explored by scheduler-controlled runs replayed on the Lean interleaving semantics'),
+        'assumptions': ['hooked atomics: a yield point before every Atom access; compare_exchange never fails spuriously (x86-64/strong CAS)'],
+    },
+    'C02': {
+        'oracles': ['C02', 'C09'], 'bv_decide': True,
+        'geoms': {'quick': ['default', 'th1'], 'thorough': ALLG},
+        'runs': {'quick': [seq('mixed', 30, 150), seq('lower', 15, 150)],
+                 'thorough': [seq('mixed', 800, 300), seq('single', 100, 300), seq('drain', 200, 300), seq('lower', 400, 300), seq('init', 200, 100)]},
+        'rule': S_RULE + (' Ownership oracle: a get succeeds only with an aligned in-range block all of whose frames were free and marks exactly '
+                          'them; a put succeeds iff the shadow model allows it (all frames allocated, whole-huge-frame rule) and frees exactly '
+                          'them; a failing call changes no frame.'),
+        'partial': ('proved for the lower allocator (put/get_at/get refine the ownership spec incl. invariant); the upper-level wrappers '
+                    '(tree/slot counters never mask or fail a lower result) are carried by the correspondence'),
+        'assumptions': [],
+    },
+    'C03': {
+        'oracles': ['C03'], 'bv_decide': True,
+        'geoms': {'quick': ['default', 'th1'], 'thorough': ALLG},
+        'runs': {'quick': [conc(12, 60, 30, 4)], 'thorough': [conc(150, 400, 200, 20, bound=3)]},
+        'rule': T_RULE + ('Oracle: no call panics (panic capture per thread) and every free of a block the thread holds returns Ok. '
+                          'The known finding K1 (spin in partial_put_huge exhausts RETRIES) is matched by its panic message.'),
+        'partial': ('the property is refuted for the unchanged code by a kernel-checked schedule (K1, recorded as known finding); sequential '
+                    'panic-freedom of the lower allocator is proved; other concurrent panic sites explored, not proved'),
+        'assumptions': ['hooked atomics: a yield point before every Atom access; compare_exchange never fails spuriously'],
+    },
+    'C04': {
+        'oracles': ['C04'], 'bv_decide': True,
+        'geoms': {'quick': ['default', 'th1'], 'thorough': ALLG},
+        'runs': {'quick': [seq('mixed', 30, 150), seq('change', 10, 150), conc(8, 40, 20, 0)],
+                 'thorough': [seq('mixed', 800, 300), seq('change', 200, 300), seq('drain', 200, 300), seq('init', 200, 100), conc(100, 300, 150, 0)]},
+        'rule': S_RULE + (' Accounting oracle after every call: stats() = (free frames, entirely free huge frames, entirely free trees) of the '
+                          'shadow allocation state; tree_stats().free_frames = that minus the frames hidden by offline trees; per-class sums; '
+                          'stats_at / is_free probes; validate() must not panic while no tree is offline. Concurrent: the same at the quiescent '
+                          'end of every explored schedule. ' + T_RULE),
+        'partial': ('exact views proved from the lower invariant (counter = free frames of the huge frame, entirely-free iff full counter, '
+                    'stats_at exact and read-only); fast = exact - offline and validate() need the upper invariant: carried by the correspondence'),
+        'assumptions': [],
+    },
+    'C05': {
+        'oracles': ['C05'],
+        'geoms': {'quick': ['default', 'th1'], 'thorough': ALLG},
+        'runs': {'quick': [conc(10, 40, 20, 0, crash_every=3), seq('mixed', 15, 150)],
+                 'thorough': [conc(120, 300, 150, 0, crash_every=1, bound=3), seq('mixed', 300, 300), unit('nvm', 500)]},
+        'rule': T_RULE + ('Crash oracle: before every crash_every-th atomic write to the lower (persistent) buffer of every explored schedule the '
+                          'buffer is copied; the copy is recovered by the real LLFree::new(Init::Recover) with zeroed volatile buffers; every block '
+                          'held by a completed call must be allocated and freeable at its order, stats/tree_stats must agree (validate), and at most '
+                          'the frames of the calls in flight may be missing. Sequential: recover at quiescent points compared with the model.'),
+        'partial': ('per-entry decision logic of recover proved (marker kept + bitfield cleared, counter := zero bits, fixpoint on consistent '
+                    'entries); the lift to the recover loop and to every crash point of every interleaving is explored, not proved'),
+        'assumptions': ['crash = loss of everything but the lower buffer at an atomic-access boundary (no torn 64-bit writes, no reordering of persisted stores)'],
+    },
+    'C06': {
+        'oracles': ['C02', 'C04', 'C09', 'C10'],
+        'geoms': {'quick': ['default', 'th1', 'k16'], 'thorough': ALLG},
+        'runs': {'quick': [seq('init', 40, 30)], 'thorough': [seq('init', 1500, 60), seq('mixed', 200, 300)]},
+        'rule': ('boundary-dense frame counts (1..130, multiples of 64 / huge frame / tree -1,0,+1, random up to 4 trees), free-all and '
+                 'allocate-all 50/50, every classing; after construction the digest of all three buffers, stats, tree_stats, validate, '
+                 'stats_at of every huge frame and tree, is_free probes at the end of the range are compared with the Lean model; then '
+                 'free-all: exhaust with a random order then with base frames (every further get must fail, C10 oracle), free everything; '
+                 'allocate-all: gets must fail, everything is freed piecewise (tree/huge/small orders), then the cycle repeats; ownership '
+                 'and accounting oracles after every call. ' + S_RULE),
+        'partial': ('arithmetic of the initial counters proved for every frame count (sum = frames, never beyond the huge frame, full iff inside '
+                    'the range, allocate-all split); that the init programs write them and the matching bits is carried by the correspondence'),
+        'assumptions': [],
+    },
+    'C09': {
+        'oracles': ['C09'], 'bv_decide': True,
+        'geoms': {'quick': ['default', 'th1'], 'thorough': ALLG},
+        'runs': {'quick': [seq('mixed', 30, 150), seq('malformed', 10, 150), seq('init', 10, 30)],
+                 'thorough': [seq('mixed', 800, 300), seq('malformed', 200, 300), seq('change', 200, 300), seq('drain', 200, 300), seq('init', 300, 60), seq('zone', 100, 300)]},
+        'rule': S_RULE + ' Oracle: no public call (new, get, put, drain, change_tree, stats, tree_stats, stats_at, is_free, validate while online) panics; every call runs under catch_unwind.',
+        'partial': ('proved: the lower allocator never panics sequentially under its invariant (all roll-back/assert sites unreachable, no index out of '
+                    'bounds); check() total. Upper-level counter arithmetic (overflow-checked build) is carried by the correspondence'),
+        'assumptions': ['harness built with overflow-checks on, debug-assertions off (assertions of the release configuration)'],
+    },
+    'C10': {
+        'oracles': ['C10'],
+        'geoms': {'quick': ['default', 'th1'], 'thorough': ALLG},
+        'runs': {'quick': [seq('drain', 30, 150), seq('mixed', 15, 150)],
+                 'thorough': [seq('drain', 800, 300), seq('mixed', 400, 300), seq('init', 200, 60), seq('single', 100, 300)]},
+        'rule': S_RULE + (' Oracle (policies that never rate Invalid): directly after drain() a base-order get fails with Memory only if no tree outside '
+                          'offline trees has a free frame in the shadow state; a targeted get fails only if its block is not entirely free or lies in '
+                          'an offline tree (and succeeds only on free blocks: ownership oracle). Drain flavor: a drain precedes most probes.'),
+        'partial': ('proved: the tree search visits every tree (search_visits_all), a non-empty candidate buffer yields a candidate, steal succeeds on '
+                    'an unreserved tree with enough frames; the composition through search_and_reserve/steal is carried by the correspondence'),
+        'assumptions': [],
+    },
+    'C11': {
+        'oracles': ['C11'],
+        'geoms': {'quick': ['default', 'th1'], 'thorough': ALLG},
+        'runs': {'quick': [seq('single', 20, 150)], 'thorough': [seq('single', 400, 300), seq('mixed', 200, 300)]},
+        'rule': S_RULE + (' Single-slot flavor: one class with one slot, base-order gets through the slot, frees with and without the slot, exhaust '
+                          'phases; oracle: with one slot a get fails only when the shadow state has no free frame (frees counted globally are '
+                          'synchronised back into the slot).'),
+        'partial': ('proved: sync_steal takes exactly the counter iff the tree is reserved and holds at least the minimum (boundary: equality '
+                    'suffices, F8); the retry composition in get_local is carried by the correspondence'),
+        'assumptions': [],
+    },
+    'C14': {
+        'oracles': ['C14', 'C04'],
+        'geoms': {'quick': ['default', 'th1'], 'thorough': ALLG},
+        'runs': {'quick': [seq('mixed', 30, 150), seq('change', 10, 150)], 'thorough': [seq('mixed', 800, 300), seq('change', 300, 300), seq('drain', 200, 300)]},
+        'rule': S_RULE + ' Oracle: the per-class rows of tree_stats() partition its totals (sum of class free = free_frames, sum of class trees = trees) and no row is negative/wrapped.',
+        'partial': ('proved: Trees::stats partitions counters over classes for every table; the slot correction (F9) and the relation to the '
+                    'allocation state need the upper invariant: carried by the correspondence'),
+        'assumptions': [],
+    },
+    'C15': {
+        'oracles': ['C15', 'C04'],
+        'geoms': {'quick': ['default', 'th1'], 'thorough': ALLG},
+        'runs': {'quick': [seq('change', 30, 150)], 'thorough': [seq('change', 800, 300), seq('mixed', 300, 300)]},
+        'rule': S_RULE + (' Change flavor: change_tree with/without id, class/free matchers, class changes, Offline/Online, ids beyond the table; '
+                          'oracle: an offline tree hands out nothing (targeted and untargeted gets, all slots), its frames vanish from tree_stats '
+                          'but not from stats, Online restores the counter to the lower free count exactly, validate after the last Online.'),
+        'partial': ('proved: Tree::change touches only a matching unreserved tree, Offline zeroes the counter, Online restores exactly the fetched '
+                    'count, an offline tree is skipped by steal/reserve/sync; that the fetched count is the tree\'s own lower count and the '
+                    'allocator-level statements are carried by the correspondence'),
+        'assumptions': ['model deviation: Online reads the lower counters before the tree update (the source inside the update closure); equivalent sequentially'],
+    },
+    'C21': {
+        'oracles': ['C21'],
+        'geoms': {'quick': ['default'], 'thorough': ['default', 'th1', 'k16']},
+        'runs': {'quick': [conc(10, 20, 20, 40)], 'thorough': [conc(120, 100, 100, 600, bound=3)]},
+        'rule': T_RULE + ('Freeze experiments: at sampled scheduling points of explored schedules all threads but one are frozen and the remaining '
+                          'call must complete within a fixed budget of atomic accesses (solo_bound of the configuration); K1 panics end a call.'),
+        'partial': ('proved: every call of the model terminates when run alone from any intermediate thread state and memory (structural: no waiting '
+                    'loop without a retry budget), each update loop needs at most 2 more accesses; an explicit uniform numeric bound is measured'),
+        'assumptions': ['hooked atomics: a yield point before every Atom access; compare_exchange never fails spuriously'],
+    },
 }
